@@ -966,6 +966,27 @@ func (w *World) Exec(op *Op) (Result, M) {
 			}
 			return nil, err
 		}), out
+	case "slash":
+		// x/staking slashes a validator for an infraction at the current height: its tokens shrink, the shares of its
+		// delegators do not (executed, not modelled: the model takes the resulting state from the implementation)
+		delete(out, "creator")
+		out["val"] = w.Val.ID(w.val1(op.Val))
+		return w.runTx(func(ctx sdk.Context) (M, error) {
+			if op.Val < 1 || op.Val > len(w.C.Vals) {
+				return nil, fmt.Errorf("no such validator")
+			}
+			v, found := app.StakingKeeper.GetValidator(ctx, w.C.Vals[op.Val-1].Addr)
+			if !found {
+				return nil, fmt.Errorf("validator not found")
+			}
+			cons, err := v.GetConsAddr()
+			if err != nil {
+				return nil, err
+			}
+			power := v.ConsensusPower(app.StakingKeeper.PowerReduction(ctx))
+			app.StakingKeeper.Slash(ctx, cons, ctx.BlockHeight(), power, sdk.NewDecWithPrec(op.Amount, 2))
+			return nil, nil
+		}), out
 	case "delegate", "undelegate", "redelegate":
 		ssrv := stakingkeeper.NewMsgServerImpl(app.StakingKeeper)
 		amt := sdk.NewInt64Coin(w.C.Cfg.Denom, op.Amount)
